@@ -235,8 +235,71 @@ def check(run: Run) -> None:
                                     f"source kwargs[{v}].second appended); found slot `{idx}`, name `{cn(c.args[0])}`, appended {pushes}", loc=fa.loc(c))
         run.sites(n, 2, "keyword slot assignments")
 
+    with run.obligation("C12.j", "K7", "a branch that returns one of its inputs directly is materialised by switch_ / dispatch_ as a transport node; a branch starts on SAMPLED held "
+                        "inputs whose composite (TSL / TSB) children are valid without being modified, so the transport's first observation must carry the input's "
+                        "CURRENT state (capture_current_delta, as the sibling transport capture_request_input does), not only the per-cycle delta"):
+        HO = "include/hgraph/lib/std/operators/impl/higher_order_impl.h"
+        transports: Dict[str, List[str]] = {}
+        for fd in t.file(HO).funcs:
+            if fd.body is None or "ParentInput" not in t.file(HO).text(fd.body[0], fd.body[1]):
+                continue
+            fa = R.parse(run, fd, strict=False)
+            for n_ in fa.body.walk():
+                if not (isinstance(n_, C.If) and any(isinstance(x, C.Id) and x.name.endswith("Kind::ParentInput") for x in n_.cond.walk())):
+                    continue
+                for c in R.calls(n_.then):
+                    if isinstance(c.fn, C.Member) and c.fn.name == "implementation" and c.fn.targs:
+                        transports.setdefault(c.fn.targs.strip().split("::")[-1], []).append(fd.name)
+        n_sites = sum(len(v) for v in transports.values())
+        run.sites(n_sites, 2, "direct boundary returns materialised as a transport node")
+        for node_type, users in sorted(transports.items()):
+            cands = [f for f in run.tree.find_funcs_anywhere("eval", cls=node_type) if f.body is not None]
+            if len(cands) != 1:
+                raise AnalysisError("anchor-vanished", f"C12.j: {node_type}::eval matched {len(cands)} definitions")
+            fa = R.parse(run, cands[0])
+            cn = R.aliases_of(fa)
+            run.count(1, "C12.j")
+            flags = [nm for ty, nm in fa.params if nm and ty.replace(" ", "").startswith("State<")]
+            def flag_test(e):
+                """(flag, polarity) when e is `flag.get()` / `!flag.get()`"""
+                pol = True
+                while isinstance(e, C.Unary) and e.op == "!":
+                    pol = not pol
+                    e = e.e
+                if isinstance(e, C.Call) and isinstance(e.fn, C.Member) and e.fn.name == "get" and isinstance(e.fn.obj, C.Id) and e.fn.obj.name in flags:
+                    return e.fn.obj.name, pol
+                return None
+            has = lambda node, nm: node is not None and any(R.callee_name(c) == nm for c in R.calls(node))
+            ok = False
+            for n_ in fa.body.walk():
+                arms = None
+                if isinstance(n_, C.Ternary):
+                    arms = (n_.c, n_.a, n_.b)
+                elif isinstance(n_, C.If) and n_.els is not None:
+                    arms = (n_.cond, n_.then, n_.els)
+                if arms is None:
+                    continue
+                ft = flag_test(arms[0])
+                if ft is None:
+                    continue
+                seen_arm, first_arm = (arms[1], arms[2]) if ft[1] else (arms[2], arms[1])
+                if has(first_arm, "capture_current_delta") and has(seen_arm, "capture_delta") and not has(seen_arm, "capture_current_delta"):
+                    # the flag is raised on every path through eval
+                    sets = [c for st in fa.body.stmts if isinstance(st, C.ExprStmt) for c in R.calls(st)
+                            if isinstance(c.fn, C.Member) and c.fn.name == "set" and isinstance(c.fn.obj, C.Id) and c.fn.obj.name == ft[0]
+                            and len(c.args) == 1 and cn(c.args[0]) == "true"]
+                    if sets:
+                        ok = True
+            if not ok:
+                run.finding("C12.j", f"{node_type}::eval:first-observation-transports-delta-only", f"{node_type} (materialised for direct boundary returns in {sorted(set(users))}) "
+                            "copies capture_delta(ts) on every evaluation: started on a sampled TSL / TSB input it never delivers the elements that are valid but do not tick "
+                            "again, and the switch output does not tick in the selection cycle", loc=fa.loc(fa.body))
+
 
 VARIANTS = [
+    {"id": "j-revert-fix-pass-through-delta-only", "expect": "C12.j", "edits": [{"file": "include/hgraph/lib/std/std_nodes.h", "find": "            const Value delta = live.get() ? capture_delta(ts.base()) : capture_current_delta(ts.base());\n            live.set(true);\n", "replace": "            const Value delta = capture_delta(ts.base());\n"}]},
+    {"id": "j-flag-polarity-swapped", "expect": "C12.j", "edits": [{"file": "include/hgraph/lib/std/std_nodes.h", "find": "live.get() ? capture_delta(ts.base()) : capture_current_delta(ts.base());", "replace": "live.get() ? capture_current_delta(ts.base()) : capture_delta(ts.base());"}]},
+    {"id": "j-twin-if-else-form", "expect": None, "edits": [{"file": "include/hgraph/lib/std/std_nodes.h", "find": "            const Value delta = live.get() ? capture_delta(ts.base()) : capture_current_delta(ts.base());\n            live.set(true);\n            apply_delta(out, delta.view());", "replace": "            if (!live.get()) { const Value first = capture_current_delta(ts.base()); apply_delta(out, first.view()); }\n            else { const Value delta = capture_delta(ts.base()); apply_delta(out, delta.view()); }\n            live.set(true);"}]},
     {"id": "h-bundle-output-not-cleared", "expect": "C12.h", "edits": [{"file": SW, "find": "  static_cast<void>(output.data_view().clear_collection(evaluation_time));\n}", "replace": "  if (output.schema() == nullptr || (output.schema()->kind != TSTypeKind::TSD && output.schema()->kind != TSTypeKind::TSS)) {\n    return;\n  }\n  static_cast<void>(output.data_view().clear_collection(evaluation_time));\n}"}]},
     {"id": "i-keyword-args-on-positional-slots", "expect": "C12.i", "edits": [{"file": "include/hgraph/lib/std/operators/impl/higher_order_impl.h", "find": "                named_slots.emplace_back(kwargs[i].first, positional_count + i);\n                ts.push_back(kwargs[i].second);\n            }\n\n            const TSValueTypeMetaData *output_schema = nullptr;", "replace": "                named_slots.emplace_back(kwargs[i].first, i);\n                ts.push_back(kwargs[i].second);\n            }\n\n            const TSValueTypeMetaData *output_schema = nullptr;"}]},
     {"id": "g-default-branch-not-in-layout", "expect": "C12.g", "edits": [{"file": SW, "find": "  if (spec.default_branch.has_value()) {\n    include_layout(*spec.default_branch);\n  }\n  return layout;", "replace": "  return layout;"}]},
